@@ -163,9 +163,9 @@ def audit_cost(l):
 
 class C11:
     id = 'C11'
-    props_files = ['SmoothProps/C11.lean']
-    props_module = 'SmoothProps.C11'
-    lean_targets = ['SmoothProps.C11']
+    props_files = ['SmoothProps/C11.lean', 'SmoothProps/SrcTieLogicC11.lean']
+    props_module = 'SmoothProps.C11All'
+    lean_targets = ['SmoothProps.C11All']
     ops = ('cs_eval_vs', 'cs_eval_gs', 'cs_dg_dvs', 'cs_dg_dgs')
     rule = ('harness/cspline.cpp: 4 functions (all optional outputs) x K=1..6 x {SO3,SE2,SE3,Bundle<SO3,V3>,V3} x '
             '{Bernstein,Bspline} cumulative basis x u in {0,1,2^-52,1-2^-53,1/2,random} x per-difference rotation strata '
